@@ -195,7 +195,7 @@ def check_formula(run, bp, g, cards):
         run.cls("op:" + o)
 
 
-PSORTS = ["S1", "S2", "L{S1}", "P{S2, Int}"]
+PSORTS = ["S1", "S2", "L{S1}", "L{S2}", "P{S2, Int}", "P{S1, Bool}", "my sort"]
 CFGS = [Cfg(max_depth=4, quant_unbounded=True, sorts=PSORTS, quant_types=[BOOL, BV(1), BV(2), SORT("S1"), SORT("L{S1}")]),
         Cfg(max_depth=3, theories={"bool", "int", "real", "str", "arr", "uf", "sort", "quant"}, quant_unbounded=True,
             sorts=PSORTS),
@@ -234,6 +234,10 @@ def check_multi_script(run, bps, g, cards):
         sc = SmtLibScript()
         for c in base.commands:
             if c.name not in (smtcmd.ASSERT, smtcmd.CHECK_SAT):
+                if c.name == smtcmd.DECLARE_FUN and not c.args[0].symbol_type().is_function_type() and g.pct(40):
+                    # the other declaration command for constants
+                    c = SmtLibCommand(smtcmd.DECLARE_CONST, [c.args[0]])
+                    run.cls("command:declare-const")
                 sc.add_command(c)
         for f in fs:
             sc.add_command(SmtLibCommand(smtcmd.ASSERT, [f]))
